@@ -45,7 +45,7 @@ def svd_full(func, args, icd, ocd, kwargs):
     pr = () if X.cplx else ("real",)
     tag = fresh("svd")
     U = tm.sym(f"Uf.{tag}", n, n, pr + ("unit", "inv"))
-    s = tm.sym(f"sf.{tag}", r, r, ("diag", "real", "herm"))
+    s = tm.sym(f"sf.{tag}", r, r, ("diag", "real", "herm", "nonneg"))
     VT = tm.sym(f"VTf.{tag}", p, p, pr + ("unit", "inv"))
     c = ctx()
     c.hyps.append((Xt.term, tm.mul(tm.mul(tm.mul(U, tm.sel(n, r)), s), tm.mul(tm.H(tm.sel(p, r)), VT)),
@@ -76,7 +76,7 @@ def _truncated(name, kname, order_tags, strict, lazy_out):
         pr = () if X.cplx else ("real",)
         tag = fresh(name.split(".")[-1])
         U = tm.sym(f"U.{tag}", n, ke, pr)
-        s = tm.sym(f"s.{tag}", ke, ke, ("diag", "real", "herm"))
+        s = tm.sym(f"s.{tag}", ke, ke, ("diag", "real", "herm", "nonneg"))
         VT = tm.sym(f"VT.{tag}", ke, p, pr)
         c = ctx()
         c.hyps += [(tm.mul(tm.H(U), U), tm.I(ke), f"{name}: U^H U = I"),
@@ -118,3 +118,41 @@ def argsort_dask(data, dim):
         raise Unsupported("argsort_dask on this argument")
     r = data._new(data.term, mark=Argsort(f"argsort({data.term!r})", data.term))
     return r
+
+
+def promax_stub(power):
+    """contract of xeofs.linalg.rotation.promax (verified separately at the numpy level where reachable):
+    rotated = loadings @ R, R invertible (unitary for power 1), phi = R^-1 R^-H ... returned with dims
+    (feature, mode), (mode_m, mode_n), (mode_m, mode_n).  Precondition of its callers' divisions:
+    the rotated loadings have non-zero columns."""
+    def promax(loadings, feature_dim, **kwargs):
+        c = ctx()
+        c.events.append(("call", {"callee": "promax", "kwargs": dict(kwargs), "feature_dim": feature_dim}))
+        if set(loadings.dims) != {feature_dim, "mode"}:
+            raise ValueError(f"operand to apply_ufunc has required core dimensions {[feature_dim, 'mode']}")
+        L = loadings.transpose(feature_dim, "mode")
+        k = L._ext["mode"]
+        if not (PNum(k.z) >= 2):
+            raise ValueError("Cannot rotate 1 modes (columns), but must be 2 or more.")
+        pr = () if loadings.cplx else ("real",)
+        R = tm.sym(fresh("R"), k, k, pr + (("unit", "inv") if power == 1 else ("inv",)))
+        rot = tm.mul(L.term, R)
+        c.notes.setdefault("pos_diag", []).append(tm.mul(tm.H(rot), rot))
+        phi = tm.mul(tm.inv(R), tm.H(tm.inv(R)))
+        mm, mn = "mode_m", "mode_n"
+        return (SymDA(rot, (feature_dim, "mode"), {feature_dim: L._ext[feature_dim], "mode": k},
+                      {feature_dim: L._cid.get(feature_dim), "mode": L._cid.get("mode")}, loadings.cplx, loadings.lazy),
+                SymDA(R, (mm, mn), {mm: k, mn: k}, None, loadings.cplx, loadings.lazy),
+                SymDA(phi, (mm, mn), {mm: k, mn: k}, None, loadings.cplx, loadings.lazy))
+    return promax
+
+
+def ufunc_inv(func, args, icd, ocd, kwargs):
+    """np.linalg.inv through xr.apply_ufunc (square matrix, output dims as given)"""
+    (A,) = args
+    core = tuple(icd[0])
+    At = A.transpose(*core)
+    ctx().events.append(("call", {"callee": "np.linalg.inv(apply_ufunc)"}))
+    o = tuple(ocd[0])
+    return SymDA(tm.inv(At.term), o, {o[0]: At._ext[core[1]], o[1]: At._ext[core[0]]},
+                 {o[0]: At._cid.get(core[1]), o[1]: At._cid.get(core[0])}, A.cplx, A.lazy)
